@@ -1,12 +1,12 @@
 package trie
 
 import (
-	"strconv"
 	"bytes"
 	"encoding/binary"
 	"fmt"
 	"math/rand"
 	"sort"
+	"strconv"
 	"strings"
 
 	"slimverif/harness/gen"
